@@ -44,7 +44,6 @@ PROPS = {
     'C07': dict(
         level='proof',
         units=['nameglob:*.DEFINE', 'name:NAME.QUOTE', 'name:CODE.DEFINITION', 'path:interpreter::PushInterpreter::step'] + STACK_API,
-        label_re=r'.',
         explanation='DEFINE binds name -> literal of the stack\'s type (map insert: a later definition replaces an earlier one); the identifier arm of step: quoted -> NAME stack and '
                     'flag cleared, bound -> the bound value is scheduled, unbound -> NAME stack; CODE.DEFINITION returns the bound value',
         assumptions=['A-hash: String keys hash/compare consistently; &str lookups find the String with the same characters'],
@@ -87,7 +86,7 @@ PROPS = {
                      'CODE.LOOP re-arms with ( INDEX.INCREASE CODE.LOOP body ) but takes its body from the CODE stack: confirmed natively to run the body twice for destination 3 and leave 1/3 on INDEX '
                      '(input `( 3 INDEX.DEFINE CODE.QUOTE ( 7 ) CODE.LOOP )`); only the multi-step lemma would expose it; the re-arm list is pinned by unit test code_loop_pushes_body_and_updated_loop'],
     ),
-    'C10_pending': dict(
+    'C10': dict(
         level='proof',
         units=['nameglob:*'],
         classes=['post'],
